@@ -686,3 +686,8 @@ Definition check_full_all (x : rvec * rvec * allocs) : bool :=
   let '(tot, av, a) := x in check_full tot av (filter (fun cl => match snd cl with [] => false | _ => true end) a).
 Definition check_res_obs (x : rvec * rvec * allocs * list (rkey * (Z * Z * Z * Z))) : bool :=
   let '(tot, av, a, g) := x in check_ledger tot av a && check_getters tot av a g.
+
+(* end-to-end runs: per resource name (allocated, total) of a live worker through the public getters;
+   idle = no task placed on the worker (and no profile loaded) *)
+Definition check_usage (u : list (Z * Z)) : bool := forallb (fun at_ => (0 <=? fst at_) && (fst at_ <=? snd at_)) u.
+Definition check_idle (u : list (Z * Z)) : bool := forallb (fun at_ => (fst at_ =? 0) && (0 <=? snd at_)) u.
